@@ -22,6 +22,7 @@ def roundTrips16 (pwd : Str) : Bool :=
 /--
 * `chk <pwd>`                      → `ok` / `err:InvalidPassword`
 * `dec7 <ep>`                      → decoded string / error class
+* `dec7o <self.ep> <ep>`           → `CiscoPassword(self.ep).decrypt_type_7(ep)`
 * `ref7 <salt> <pwd>`              → reference encoding `|` its decoding by the library's decoder
 * `lib7 <salt> <pwd>`              → `encrypt_type_7` with the drawn salt `|` decoding `|` T/F (all 16 library salts round-trip)
 * `h8|h9 <salt> <pwd> <kdf bytes>` → `encrypt_type_8/9` with the drawn salt and the KDF answer supplied by the harness
@@ -36,6 +37,10 @@ def handle : List String → String
     match decStr e with
     | some ep => show' (decrypt7 ep)
     | none => "bad-request"
+  | ["dec7o", o, e] =>
+    match decStr o, decStr e with
+    | some selfEp, some ep => show' (decryptType7 selfEp ep)
+    | _, _ => "bad-request"
   | ["ref7", s, p] =>
     match decNat s, decStr p with
     | some salt, some pwd =>
